@@ -4,6 +4,7 @@ from __future__ import annotations
 import ast
 from typing import List, Optional
 
+from ..cfg import walk_no_nested, call_name
 from ..core import AnalysisError, Ctx, Func, norm
 from ..vec import analyse_frame_function, FrameResult, Vc, Pt
 
@@ -80,12 +81,39 @@ def lab_axis_choice(ctx: Ctx, rule: str):
             if lp is None or lp.lab_index is None:
                 continue
             idx = lp.lab_index
+            from ..pat import single_defs as _sdf
+            sdf = _sdf(f.node)
+            if isinstance(idx, ast.Name) and idx.id in sdf:
+                idx = sdf[idx.id]
             txt = norm(idx).replace(" ", "")
-            e1 = None
+            # which vector is measured, which vector is crossed with the lab axis
+            measured = None
+            for c_ in ast.walk(idx):
+                if isinstance(c_, ast.Call) and call_name(c_) in ("abs", "fabs", "absolute") and c_.args:
+                    measured = c_.args[0]
+            # the vector crossed with the lab axis (by identity in the interpretation), and what the measured name was
+            # bound to when the index was computed
+            crossed = None
             for vid in (v.cross or ()):
-                w = r.vecs.get(vid)
-                if w is not None and w is not lp:
-                    e1 = w
+                w_ = r.vecs.get(vid)
+                if w_ is not None and w_ is not lp:
+                    crossed = w_
+            if measured is not None and crossed is not None and isinstance(measured, ast.Name):
+                idx_line = getattr(idx, "lineno", 0)
+                last_def = None
+                for s_ in walk_no_nested(f.node):
+                    if isinstance(s_, ast.Assign) and isinstance(s_.targets[0], ast.Name) and s_.targets[0].id == measured.id \
+                            and s_.lineno <= idx_line and (last_def is None or s_.lineno >= last_def.lineno):
+                        last_def = s_
+                mtxt = norm(last_def.value) if last_def is not None else None
+                if mtxt is not None and crossed.origin and mtxt.replace(" ", "") != crossed.origin.replace(" ", ""):
+                    ctx.ob(rule, f, "collinear path: lab axis index %s" % norm(idx), False,
+                           "the completing lab axis must not be parallel to the vector it is crossed with (%s) -- the axis is chosen "
+                           "from the components of another vector (`%s` = %s): on this path that vector is parallel to the first one "
+                           "or ZERO (two coincident points), and for a zero vector the index is 0 whatever the first vector is; the "
+                           "cross product can then vanish and its normalisation is NaN" % (crossed.origin, measured.id, mtxt),
+                           node=idx)
+                    continue
             ok_forms = ("np.argmin(np.abs(", "np.abs(", "np.argmin(abs(", "np.argmin(np.fabs(", "np.argsort(np.abs(")
             good = txt.startswith(ok_forms) and ("argmin" in txt or txt.endswith("[0]"))
             bad = txt.startswith(("np.argmin(", "np.argmax(")) and "abs" not in txt or "argmax" in txt
@@ -193,3 +221,22 @@ def equivariant_on_generic_path(ctx: Ctx, rule: str):
                "products only (rotation-equivariant)"
                + ("" if not bad else " -- lab-frame dependent: %s" % [v.origin for v in bad]), node=r.ret_node)
     ctx.floor(rule, n, 1, "non-degenerate paths")
+
+
+def exact_degeneracy_test(ctx: Ctx, rule: str):
+    """The completion branch (a lab axis instead of the plane normal) is entered only when the cross product vanishes
+    EXACTLY: under a tolerance, triples that are not collinear take that branch and their third vector is not normal
+    to the plane of the points."""
+    f = frame_func(ctx)
+    for r in results(ctx):
+        if r.frame is None or not r.degenerate:
+            continue
+        lab = [v for v in r.frame if not v.eq]
+        if lab and not r.degenerate_exact:
+            ctx.ob(rule, f, "collinear path [%s]" % "; ".join(r.degenerate_tests), False,
+                   "the third vector is normal to the plane of the points whenever they span a plane: the completion by a lab "
+                   "axis is reserved for an exactly vanishing cross product -- this test is a tolerance, so some non-collinear "
+                   "triples (short edges, small angles) get a third vector that is not the plane normal", node=r.ret_node)
+        else:
+            ctx.ob(rule, f, "collinear path [%s]" % "; ".join(r.degenerate_tests), True,
+                   "the completion branch is guarded by the exactly vanishing cross product", node=r.ret_node)
